@@ -566,3 +566,76 @@ Definition c02_run_with (la_flag : bool) (toks : list (list N)) : list (list N) 
 
 From TT Require Import Generated.PipeFacts.
 Definition c02_run (toks : list (list N)) : list (list N) := c02_run_with PIPE_LA_ON_TRANSFER_ONLY toks.
+
+(* ------------------------------------------------------------------ *)
+(* C07: UDP flow bookkeeping against real loopback sockets.
+   Environment assumptions written into the engine (they are what the harness arranges):
+   echo servers answer every datagram; the "DNS" destination answers and the flow's accounting is
+   finished before the next operation; a datagram to a closed port leaves and is never answered (the queued ICMP error only makes
+   a later send fail, which drops that datagram); the unconnectable destination refuses connect(); every operation
+   carries its nominal time and the generator keeps idle times out of the window in which the
+   tick phase decides. *)
+From TT Require Import Model.UdpFlows.
+
+Definition c07_kind (f : N) : N := N.min (f mod 8) 4.
+Definition c07_meta (f : N) : meta := (1000 + f, c07_kind f).
+
+Fixpoint c07_seen (k : N) (seen : list (N * N)) : option N :=
+  match seen with
+  | [] => None
+  | (a, b) :: r => if a =? k then Some b else c07_seen k r
+  end.
+
+Fixpoint c07_ops (T : N) (s : ustate) (seen : list (N * N)) (ops : list (list N)) : list (list N) :=
+  match ops with
+  | [] => []
+  | op :: rest =>
+    match op with
+    | [1; f; _; now] =>
+      let s1 := fst (ustep T s (Tick now)) in
+      let m := c07_meta f in
+      let k := c07_kind f in
+      let '(s2, outs) := ustep T s1 (ClientDgram m now (k =? 2) (negb (k =? 4)) true) in
+      match outs with
+      | [ToPeer m' sock] =>
+        if k <? 3 then
+          let '(id, seen') := match c07_seen sock seen with
+                              | Some id => (id, seen)
+                              | None => (lenN seen + 1, (sock, lenN seen + 1) :: seen)
+                              end in
+          let '(s3, outs2) := ustep T s2 (PeerDgram (reversed m') now) in
+          match outs2 with
+          | [ToClient l] => [1; 1; id; 1; if meta_eqb l (reversed m) then 1 else 0] :: c07_ops T s3 seen' rest
+          | _ => [1; 1; id; 0; 0] :: c07_ops T s3 seen' rest
+          end
+        else
+          (* closed port: the datagram leaves, nobody answers; the queued ICMP error is consumed by the
+             next send on that socket (which is then dropped) and is not seen by the reader *)
+          [1; 0; 0; 0; 0] :: c07_ops T s2 seen rest
+      | _ => [1; 0; 0; 0; 0] :: c07_ops T s2 seen rest
+      end
+    | [2; _; now] => [2] :: c07_ops T (fst (ustep T s (Tick now))) seen rest
+    | [3; now] =>
+      let s1 := fst (ustep T s (Tick now)) in
+      (if terminated s1 then [3; 0; 0] else [3; lenN (fwd s1); 1]) :: c07_ops T s1 seen rest
+    | _ => [997] :: c07_ops T s seen rest
+    end
+  end.
+
+Definition c07_run (toks : list (list N)) : list (list N) :=
+  match toks with
+  | [T] :: ops => c07_ops T uinit [] ops
+  | _ => REJECT_TOK
+  end.
+
+(* C13: TlsHostsSettings::validate through both routes.
+   in : [bad_group; bad_index] main rp ping speed   (bad_group 0 = every certificate loads)
+   out: [builder refused; Core::new refused] *)
+Definition c13_hosts (toks : list (list N)) : list (list N) :=
+  match toks with
+  | [bg; _] :: main :: rp :: ping :: speed :: _ =>
+    let c := c05_config [1; 1; 1; 1] main [] rp ping speed in
+    let ok := valid_hosts c && (bg =? 0) in
+    [[if ok then 0 else 1; if ok then 0 else 1]]
+  | _ => REJECT_TOK
+  end.
